@@ -376,10 +376,10 @@ const (
 )
 
 type GcRule struct {
-	Kind   GcKind
-	N      int32   // max versions
-	AgeUs  int64   // max age in microseconds
-	Subs   []*GcRule
+	Kind  GcKind
+	N     int32 // max versions
+	AgeUs int64 // max age in microseconds
+	Subs  []*GcRule
 }
 
 func (g *GcRule) String() string {
